@@ -155,6 +155,24 @@ def run(chk, ctx):
                                        if got is not None else T.show(v)),
                    detail={'expected': T.show(tuple(want))[:200]},
                    site=site)
+        # dict(obj) goes through keys() + obj[k] when the class has a keys
+        # attribute, bypassing __iter__
+        km = prog.find_method(ci, 'keys')
+        if km is not None:
+            it, st, ref = fresh()
+            v, st2, raises = call(it, ctx, km, [ref], st)
+            got = None
+            if isinstance(v, T.Ref):
+                o = it.obj(st2, v)
+                if o.kind == 'list' and not o.more:
+                    got = list(o.items)
+            elif isinstance(v, tuple):
+                got = list(v)
+            chk.ob('C19.I', q + '.keys', got == slots and not raises,
+                   'dict(obj) uses keys(), which gives %s' % (
+                       T.show(tuple(got))[:160] if got is not None
+                       else T.show(v)[:160]),
+                   detail={'expected': slots}, site=site)
         # getitem
         m = method('__getitem__')
         if m is not None:
